@@ -103,19 +103,37 @@ fn tol_case<const K: usize>(id: &str, rows: &[Vec<f64>], base: f64, out: &mut Ou
     let mut m = Matrix::<K>::zero();
     for i in 0..K { for j in 0..K { let _ = m.set(i, j, rows[i][j]); } }
     let t = catch(|| adaptive_tolerance(&m, base));
+    let dv = catch(|| delaunay::geometry::matrix::determinant(&m));
     out.case(id, "tol", &format!("k={K}"));
     for r in rows { out.line(&format!("mr {}", hxs(r))); }
     out.line(&format!("base {}", crate::common::hx(base)));
     match t { Ok(v) => out.obs("tol", &crate::common::hx(v)), Err(m) => out.obs("tol", &format!("panic:{m}")) }
+    match dv { Ok(v) => out.obs("det", &crate::common::hx(v)), Err(m) => out.obs("det", &format!("panic:{m}")) }
     out.end();
 }
 
 fn tol_cases(rng: &mut Rng, out: &mut Out, n: usize) {
     for i in 0..n {
         let k = 2 + (i % 6);
-        let fam = rng.below(5);
+        let fam = rng.below(7);
         let mut rows: Vec<Vec<f64>> = Vec::new();
         let big_row = rng.below(k as u64) as usize;
+        if fam >= 5 {
+            // mixed scales: a (row-permuted) triangular matrix with large diagonal entries 2^6..2^11
+            // and ONE tiny diagonal entry 2^-30..2^-46 - the determinant is their product, far above
+            // any tolerance, while one LU pivot is tiny
+            let tiny_at = rng.below(k as u64) as usize;
+            let j = 30 + rng.below(17) as i32;
+            for r in 0..k {
+                let mut row = vec![0.0f64; k];
+                for c in 0..k {
+                    if c == r { row[c] = if r == tiny_at { 2f64.powi(-j) } else { 2f64.powi(6 + rng.below(6) as i32) * if rng.chance(1, 2) { -1.0 } else { 1.0 } }; }
+                    else if c > r && fam == 6 && r != tiny_at { row[c] = rng.range(-3, 3) as f64; }
+                }
+                rows.push(row);
+            }
+            if rng.chance(1, 2) { rng.shuffle(&mut rows); }
+        } else {
         for r in 0..k {
             let mut row: Vec<f64> = (0..k).map(|_| rng.range(-9, 9) as f64 * [1.0, 0.5, 0.125][rng.below(3) as usize]).collect();
             // one row dominates the norm (any row, including the last: the query-point row)
@@ -127,6 +145,7 @@ fn tol_cases(rng: &mut Rng, out: &mut Out, n: usize) {
                 _ => {}
             }
             rows.push(row);
+        }
         }
         let base = [1e-15, 1e-12, 0.0][rng.below(3) as usize];
         let id = format!("t{i}");
